@@ -18,4 +18,11 @@ def reflShiftDunder (op : BinOp) (wx x wy y : Nat) : Option (Nat × Nat) :=
   | .lshift | .rshift => evalBin op ⟨some wx, (x : Int)⟩ ⟨some wy, (y : Int)⟩
   | _ => none
 
+/-- unary operators: `-a` is unsupported for every `a` (zero included), `+a` and `abs(a)` are `a` in its own type -/
+inductive UnOp where | neg | pos | abs
+def evalUn (op : UnOp) (w a : Nat) : Option (Nat × Nat) :=
+  match op with
+  | .neg => none
+  | .pos | .abs => (wrapN w a).map (·, w)
+
 end Rmk.Impl
